@@ -523,8 +523,8 @@ func (s *v14Session) serveHTTP(w http.ResponseWriter, r *http.Request) {
 	h := &v14HState{s: s, e: e, w: w, r: r, seen: seen, rr: v14Rand{e.Seed ^ 0x1111}}
 	h.rchk = v14NewChecker(&e.ReqBody)
 	h.rbuf = make([]byte, 64<<10)
-	h.rchunk = v14Chunker{Mode: e.HReadChunk, r: v14Rand{e.Seed ^ 0x2222}}
-	h.wchunk = v14Chunker{Mode: e.RespChunk, r: v14Rand{e.Seed ^ 0x3333}}
+	h.rchunk = v14Chunker{Mode: e.HReadChunk, r: v14Rand{e.Seed ^ 0x2222}, Cap: 4 * e.OpCap}
+	h.wchunk = v14Chunker{Mode: e.RespChunk, r: v14Rand{e.Seed ^ 0x3333}, Cap: e.OpCap}
 	if e.Status != 204 && e.Status != 304 {
 		h.wtotal = e.RespBody.Len
 		if e.RespRaw != nil {
@@ -665,7 +665,7 @@ func (s *v14Session) client(e *v14Exch) {
 		req.Header[h.K] = append(req.Header[h.K], h.V...)
 	}
 	if e.ReqBodyKind >= 2 {
-		rb := &v14ReqBody{s: s, e: e, req: req, ch: v14Chunker{Mode: e.ReqChunk, r: v14Rand{e.Seed ^ 0x5555}}, rr: v14Rand{e.Seed ^ 0x6666}}
+		rb := &v14ReqBody{s: s, e: e, req: req, ch: v14Chunker{Mode: e.ReqChunk, r: v14Rand{e.Seed ^ 0x5555}, Cap: e.OpCap}, rr: v14Rand{e.Seed ^ 0x6666}}
 		req.Body = rb
 		switch e.ReqBodyKind {
 		case 2:
@@ -722,7 +722,7 @@ func (s *v14Session) client(e *v14Exch) {
 	default:
 		chk = v14NewChecker(&e.RespBody)
 	}
-	ch := v14Chunker{Mode: e.CReadChunk, r: v14Rand{e.Seed ^ 0x7777}}
+	ch := v14Chunker{Mode: e.CReadChunk, r: v14Rand{e.Seed ^ 0x7777}, Cap: 4 * e.OpCap}
 	buf := make([]byte, 64<<10)
 	for {
 		n := ch.next()
